@@ -41,7 +41,8 @@ class CbFault(Engine):
 
     def worker_init(self, tier):
         self.cache = NamespaceCache()
-        self.cost_budget = 60000 if tier == 'quick' else 240000
+        # deterministic cost guard, in Python function calls (ops.call_cost)
+        self.call_budget = 2500000 if tier == 'quick' else 12000000
 
     def budget(self, tier):
         if tier == 'quick':
@@ -127,10 +128,14 @@ class CbFault(Engine):
                 continue
             for exc, args in vs:
                 pairs.append((i, kind, exc, args))
-        # deterministic cost cap: a load costs roughly in proportion to the
-        # document size; keep (document bytes x faulted loads) bounded and, when
+        # deterministic cost cap: the cost of one load is measured in Python
+        # function calls; keep (calls x faulted loads) bounded and, when
         # capping, spread the injected faults evenly over the enumerated pairs
-        cap = max(8, self.cost_budget // max(len(doc), 50))
+        rc = max(1, ops.call_cost(thunk))
+        if rc * 8 > self.call_budget * 2:
+            stats.count('plans_skipped_too_costly')
+            return []
+        cap = max(8, self.call_budget // rc)
         if len(pairs) > cap:
             stats.count('plans_with_capped_enumeration')
             step = len(pairs) / float(cap)
@@ -201,6 +206,7 @@ class CbFault(Engine):
             'callback_sites_enumerated': c.get('callback_sites', 0),
             'plans_with_full_enumeration': c.get('plans_with_full_enumeration', 0),
             'plans_with_capped_enumeration': c.get('plans_with_capped_enumeration', 0),
+            'plans_skipped_too_costly': c.get('plans_skipped_too_costly', 0),
             'simulated_time': 'not applicable: yatiml reads no clock; logical steps are loads',
             'real_vs_stub': dict(REAL_STUB, **{
                 'callback failures': 'injected at the generated classes\' first statement (stub fault source)',
